@@ -2,7 +2,7 @@
    both generic wire values (Base/Sx.v).  A request is (op arg ...). *)
 From Coq Require Import ZArith List Bool.
 From Mistletoe Require Import Base.Sx Base.PyStr Model.SpanTokenizer Model.Tree Model.TreeWire
-  Model.HtmlRenderer Spec.HtmlSpec.
+  Model.HtmlRenderer Spec.HtmlSpec Model.LatexRenderer Spec.LatexSpec.
 Import ListNotations.
 Local Open Scope Z_scope.
 
@@ -42,11 +42,25 @@ Definition op_str (req : sx) : sx :=
 
 Definition op_check_html (req : sx) : sx := SxZ (check_html (str_of_sx (sx_nth req 1))).
 
+(* ---- X-latex ---- *)
+Definition op_latex (req : sx) : sx :=
+  match render_latex (tok_of_sx (sx_nth req 1)) with
+  | Some s => SxL [SxZ 1; sx_of_str s]
+  | None => SxL [SxZ 0]
+  end.
+Definition op_check_latex (req : sx) : sx := SxZ (check_latex (str_of_sx (sx_nth req 1))).
+Definition op_latex_str (req : sx) : sx :=
+  let s := str_of_sx (sx_nth req 2) in
+  sx_of_str (match z_of_sx (sx_nth req 1) with 0 => latex_escape s | _ => latex_escape_url s end).
+
 Definition dispatch (req : sx) : sx :=
   match z_of_sx (sx_nth req 0) with
   | 16 => op_tokenize req
   | 8 => op_html req
   | 80 => op_str req
   | 81 => op_check_html req
+  | 17 => op_latex req
+  | 170 => op_latex_str req
+  | 171 => op_check_latex req
   | _ => SxL [SxZ (-1)]
   end.
